@@ -19,7 +19,7 @@ ASSUMPTIONS = ["parities are decoded from the clause list (clauses grouped by va
                "sign-parity classes); k = 0 parities carry no variables and are judged by clause count only",
                "adversarial answers are legal values of the random functions (positive probability outcomes)"]
 REQUIRED = ["kcnf_ok", "kxor_ok", "refusals_expected", "dense_branch_kcnf", "dense_branch_kxor",
-            "adversary_engaged", "cli_runs", "at_exact_maximum"]
+            "adversary_engaged", "cli_runs", "at_exact_maximum", "big_at_exact_maximum", "big_planted"]
 CASE_TIMEOUT = {"quick": 120, "thorough": 900}
 
 
@@ -188,7 +188,7 @@ def case_lib(ctx, family, k, n, nplanted, rseed, reps):
                 if mode == "fair":
                     st, F = ctx.call(gen, k, n, m, seed=seed, planted_assignments=pl_arg)
                 else:
-                    with adversary(mode, 10 * m + 50, seed) as adv:
+                    with adversary(mode, 10 * m * (k + 2) + 50, seed) as adv:
                         st, F = ctx.call(gen, k, n, m, planted_assignments=pl_arg)
                     if adv.engaged:
                         ctx.count("adversary_engaged")
@@ -265,6 +265,8 @@ def workload(tier, seed):
                     for rs in range(1 if tier == "quick" else 6):
                         yield "lib", {"family": family, "k": k, "n": n, "nplanted": nplanted,
                                       "rseed": seed * 10 + rs, "reps": reps}
+        for (k, n) in ((1, 11), (2, 11), (3, 11), (5, 11), (10, 11), (11, 11), (2, 15), (3, 15), (3, 16), (2, 23), (3, 23), (2, 33), (3, 36), (3, 70), (4, 40)):
+            yield "big", {"family": family, "k": k, "n": n, "rseed": seed}
         # the command line documents k and n as positive integers
         for k in range(1, 4):
             for n in range(1, 6):
@@ -276,3 +278,66 @@ def workload(tier, seed):
                     for plant in (False, True):
                         yield "cli", {"family": family, "k": k, "n": n, "m": m, "plant": plant,
                                       "seed": seed + 1 + (m % 3)}
+
+
+def case_big(ctx, family, k, n, rseed):
+    """Larger n: the exact maximum (closed form, no planted assignment) must be accepted and one more refused;
+    planted assignments on 32..70 variables must satisfy every clause / parity."""
+    import math
+    import cnfgen.families.randomformulas as rf
+    import cnfgen.families.randomkxor as rx
+    r = ctx.rng("c13big", family, k, n, rseed)
+    gen = rf.RandomKCNF if family == "kcnf" else rx.RandomKXOR
+    mx = math.comb(n, k) * (2 ** k if family == "kcnf" else 2)
+    if mx <= 40000:
+        for m, feasible in ((mx, True), (mx + 1, False), (mx - 1, True)):
+            seed = r.randint(0, 10 ** 6)
+            label = "%s(k=%d,n=%d,m=%d,seed=%d) [maximum %d]" % (gen.__name__, k, n, m, seed, mx)
+            st, F = ctx.call(gen, k, n, m, seed=seed)
+            if st == "exc":
+                if isinstance(F, ValueError) and not feasible:
+                    ctx.count("refusals_expected")
+                elif isinstance(F, ValueError):
+                    ctx.violation("rand%s:refuses-feasible" % family, "%s raised %r" % (label, F))
+                else:
+                    ctx.violation("rand%s:raises:%s" % (family, type(F).__name__), "%s raised %r" % (label, F))
+            elif not feasible:
+                ctx.violation("rand%s:accepts-infeasible" % family, "%s returned %d clauses" % (label, len(F)))
+            else:
+                ctx.count("big_at_exact_maximum")
+                if family == "kcnf":
+                    check_kcnf(ctx, F, k, n, m, [], label)
+                elif len(F) != m * 2 ** (k - 1) or F.number_of_variables() != n:
+                    ctx.violation("randkxor:shape", "%s: %d clauses / %d variables" % (label, len(F), F.number_of_variables()))
+            ctx.judged(("big-max", family, k, n, m), nontrivial=True, sample={"call": label})
+    # planted assignments on many variables (sparse regime)
+    for _ in range(6):
+        # feasible by construction: every planted assignment excludes exactly one sign pattern per variable set,
+        # and a single planted assignment leaves exactly one parity per variable set
+        nplanted = r.randint(1, 2) if family == "kcnf" and k >= 2 else 1
+        planted = planted_sets(n, r, nplanted)
+        room = math.comb(n, k) * ((2 ** k - nplanted) if family == "kcnf" else 1)
+        if room < 1:
+            continue
+        m = r.randint(min(n, room), min(3 * n, room))
+        seed = r.randint(0, 10 ** 6)
+        label = "%s(k=%d,n=%d,m=%d,planted x%d,seed=%d)" % (gen.__name__, k, n, m, len(planted), seed)
+        st, F = ctx.call(gen, k, n, m, seed=seed, planted_assignments=[list(a) for a in planted])
+        if st == "exc":
+            ctx.violation("rand%s:raises:%s" % (family, type(F).__name__), "%s raised %r" % (label, F))
+            continue
+        ctx.count("big_planted")
+        sets = [set(a) for a in planted]
+        for c in F:
+            for a in sets:
+                if not any(l in a for l in c):
+                    ctx.violation("rand%s:planted-falsified" % family, "%s: clause %r falsified by a planted assignment" % (label, list(c)))
+                    break
+            else:
+                continue
+            break
+        if family == "kcnf":
+            check_kcnf(ctx, F, k, n, m, planted, label)
+        elif len(F) != m * 2 ** (k - 1) or F.number_of_variables() != n:
+            ctx.violation("randkxor:shape", "%s: %d clauses / %d variables" % (label, len(F), F.number_of_variables()))
+        ctx.judged(("big-planted", family, k, n, m, seed), nontrivial=True, sample={"call": label})
